@@ -149,9 +149,25 @@ func checkC12(c *Ctx, r *Report) {
 //	R12j each typed getter converts the value it found with the accessor of its own type (Int with toInt, …);
 //	R12k each typed setter stores the node type of its own kind with its argument as the payload.
 func accessorFamilyRules(c *Ctx, r *Report) {
-	r.Rule("R12i", "cfgPath.Has / GetValue / SetValue / Remove reach into nodes only through the segment methods of the field interface, never through the accessors of fields directly", 4)
+	r.Rule("R12i", "cfgPath.Has / GetValue / SetValue / Remove reach into nodes only through the segment methods of the field interface, never through the accessors of fields directly; neither do getField and setField", 6)
 	pathT := c.Named("", "cfgPath")
 	fieldsT := c.Named("", "fields")
+	// the two address functions of Config come first: they find the node through the parsed path, never by looking
+	// the name up as it is written (a literal answer disagrees with Has, the setters and Remove as soon as the name
+	// contains the separator or is a number)
+	for _, mn := range []string{"getField", "setField"} {
+		fn := c.Method("", "Config", mn)
+		bad := ""
+		for _, g := range WithAnon(fn) {
+			for _, ci := range CallsIn(g, false) {
+				if f := ci.Common().StaticCallee(); f != nil && recvName(f) == "fields" {
+					bad = "fields." + f.Name() + " at " + c.Pos(ci.Pos())
+				}
+			}
+		}
+		r.Check(bad == "", "R12i", c.FnName(fn), "walks through the segment methods", c.Pos(fn.Pos()), "no direct access to node storage",
+			"the address function "+mn+" looks into the node by itself ("+bad+"): a name is answered literally where Has, the setters and Remove parse it — the getters read a setting at an address that is not there for the others")
+	}
 	for _, mn := range []string{"Has", "GetValue", "SetValue", "Remove"} {
 		fn := c.MethodImpl(pathT, mn)
 		if fn == nil {
@@ -176,6 +192,31 @@ func accessorFamilyRules(c *Ctx, r *Report) {
 		}
 		r.Check(bad == "", "R12i", c.FnName(fn), "walks through the segment methods", c.Pos(fn.Pos()), "no direct access to node storage",
 			"a path walker reaches into a node by itself ("+bad+"): what it finds at a segment can differ from what the segment's getter, setter and remover agree on")
+	}
+
+	// CountField is the getter without an index: it addresses its setting like the others
+	r.Rule("R12l", "CountField finds its setting through getField(own name, -1, options from its own arguments), not by a literal lookup of the name", 1)
+	{
+		cf := c.Method("", "Config", "CountField")
+		gf := c.Method("", "Config", "getField")
+		ok, why := false, "no call of getField"
+		for _, ci := range CallsTo(cf, gf, false) {
+			args := ci.Common().Args
+			if len(args) >= 3 && args[1] == ssa.Value(cf.Params[1]) {
+				if k, isK := ConstInt(args[2]); isK && k == -1 {
+					ok, why = true, "getField(name, -1, options)"
+				}
+			} else {
+				why = "getField is not given CountField's own name"
+			}
+		}
+		for _, ci := range CallsIn(cf, false) {
+			if f := ci.Common().StaticCallee(); f != nil && recvName(f) == "fields" && f.Name() == "get" {
+				ok, why = false, "the name is looked up literally (fields.get)"
+			}
+		}
+		r.Check(ok, "R12l", c.FnName(cf), "addressed like a getter", c.Pos(cf.Pos()), why,
+			"CountField does not address its setting through the address function of the getters ("+why+"): with a path separator Has(\"a.b\") is true and CountField(\"a.b\") reports a missing field, a numeric name is an index for Has and Int and a name for CountField")
 	}
 
 	r.Rule("R12j", "Bool, String, Int, Uint, Float and Child convert the value found with the accessor of their own type (toBool, toString, toInt, toUint, toFloat, toConfig) and return its result", 6)
